@@ -176,13 +176,24 @@ def chainFrom : Nat → Node → Option Key → Except Err (List Entry)
     let z := scan k [] c0 r
     (chainFrom h z.focus (some k)).map (· ++ z.right.flatMap (fun p => flat h p.2))
 
+/-- `key.cmp(end)` is Greater, or Equal with an exclusive end: stop -/
+def pastStop (stop : Option Key) (incE : Bool) (k : Key) : Bool :=
+  match stop with
+  | some e => e < k || (k = e && !incE)
+  | none => false
+
+/-- `key.cmp(start)` is Less, or Equal with an exclusive start: skip -/
+def beforeStart (start : Option Key) (incS : Bool) (k : Key) : Bool :=
+  match start with
+  | some s => k < s || (k = s && !incS)
+  | none => false
+
 /-- the loop body of `range_scan` over the chained entries -/
 def scanLoop (start stop : Option Key) (incS incE : Bool) : Bool → List Entry → List RowId
   | _, [] => []
   | started, (k, rs) :: t =>
-    if (match stop with | some e => e < k || (k = e && !incE) | none => false) then []
-    else if !started && (match start with | some s => k < s || (k = s && !incS) | none => false) then
-      scanLoop start stop incS incE false t
+    if pastStop stop incE k then []
+    else if !started && beforeStart start incS k then scanLoop start stop incS incE false t
     else rs ++ scanLoop start stop incS incE true t
 
 def rangeScan (t : BTree) (start stop : Option Key) (incS incE : Bool) : Except Err (List RowId) :=
